@@ -66,10 +66,32 @@ func c34Sync(rec *kit.Rec, o *roundObs) {
 		rec.Count("duplicate_name_rounds_rejected_unchanged", 1)
 		return
 	case exp.Fail != "":
-		// overlapping roots / the same root twice: outside the statement
-		rec.Case(key, false, nil)
+		// overlapping roots / the same root twice: one Git repository is discovered twice.
+		// zoekt-local-sync refuses such a root set, and the statement only speaks about
+		// successful runs. Should -f succeed, "exactly one repository for each Git
+		// repository" still has to hold: no source may be indexed under two names.
 		rec.Count("other_expected_failure_rounds", 1)
 		rec.Seen("other_failures", exp.Fail+fmt.Sprintf(" exit=%d", o.Force.Exit))
+		if o.Force.Exit != 0 || o.View == nil {
+			rec.Case(key, false, nil)
+			return
+		}
+		rec.Case(key, true, sample)
+		bySource := map[string][]string{}
+		for n, r := range o.View.Repos {
+			if r.Source != "" {
+				bySource[r.Source] = append(bySource[r.Source], n)
+			}
+		}
+		for src, names := range bySource {
+			if len(names) > 1 {
+				sort.Strings(names)
+				rec.Violation("c34/sync/one git repository indexed under several names",
+					fmt.Sprintf("`-f` succeeded for a root set in which %s is discovered more than once (%s) and the index now holds it as %q", src, exp.Fail, names),
+					witnessRound(o, map[string]any{"source": src, "names": names}))
+				return
+			}
+		}
 		return
 	case o.Force.Exit != 0:
 		// the statement starts from a successful run
